@@ -116,7 +116,13 @@ def _compare(name, spec, res):
     rel = spec.get("rel", 1e-9)
     floor_rel = spec.get("floor", FLOOR_STRICT)
     amap = spec.get("map")
-    A = build_variant(form, va, entry)
+    try:
+        A = build_variant(form, va, entry)
+    except gen.Rejected as e:
+        if spec.get("a_may_reject"):
+            res["outside"].append(f"{name}: variant A rejected by FFCx ({e})")
+            return
+        raise
     try:
         B = build_variant(form, vb, entry)
     except gen.Rejected as e:
